@@ -43,3 +43,14 @@ theorem chkFrames_abut {bs : List Block} {f : Int} (h : chkFrames f bs = true) (
   omega
 
 end DastardV.C03
+
+namespace DastardV.C03
+
+/-- accepted by `chkShape` ⇒ every emitted block has one channel list per group with that group's channel
+count, and every channel of every group holds exactly `nframes` samples -/
+theorem chkShape_sound {L : List GL} {bs : List Block} (h : chkShape L bs = true) (b : Block) (hb : b ∈ bs) :
+    b.data.map (·.length) = L.map (·.nchan) ∧ ∀ g ∈ b.data, ∀ ch ∈ g, ch.length = b.nframes := by
+  simp only [chkShape, List.all_eq_true, Bool.and_eq_true, beq_iff_eq] at h
+  exact ⟨(h b hb).1, fun g hg ch hc => (h b hb).2 g hg ch hc⟩
+
+end DastardV.C03
